@@ -211,7 +211,7 @@ def evaluate(ctx, results):
                 if not r["died"]:
                     ctx.dist[f"recovery_exit={r['obs'].get('exit')}"] += 1
             replay = {"case": case, "scenario": sc, "scenario_seed": run["seed"], "hashseed": res["hashseed"], "layer": "crash-e2e"}
-            for kind, msg in crash.judge(case, recs):
+            for kind, msg in crash.judge(case, recs, res["pre"]):
                 ctx.violation(f"{kind}: {msg}", replay)
             if drv is not None and not mdis:
                 d = crash.replay_model(drv, recs)
